@@ -803,7 +803,7 @@ class SgzReader(object):
                                            0, self.n_samples, access_padding=True)
 
             trace = chunk[index % self.blockshape[1], 0:self.n_samples]
-            return np.squeeze(trace)
+            return trace
 
         else:
             if (not self.structured) and (not override_unstructured_mapping):
@@ -826,7 +826,7 @@ class SgzReader(object):
 
             chunk = self._read_containing_chunk_cached(min_il, min_xl, min_z, max_z)
             trace = chunk[il % self.blockshape[0], xl % self.blockshape[1], min_sample_id-min_z:max_sample_id-min_z]
-            return np.squeeze(trace)
+            return trace
 
     def _read_containing_chunk(self, ref_il, ref_xl, min_z, max_z):
         assert ref_il % self.blockshape[0] == 0
